@@ -82,6 +82,9 @@ type c06Spec struct {
 	// ZeroRows: after the first judged render this many zero-value rows
 	// (new(tabular.Row) / &tabular.Row{}) are appended with AddRow
 	ZeroRows int `json:"zero_rows,omitempty"`
+	// Hist: instead of all of the above, a history over several tables and
+	// several long-lived wrappers (c06_hist.go)
+	Hist *c06Hist `json:"hist,omitempty"`
 }
 
 type c06Share struct {
@@ -220,6 +223,9 @@ func (s *c06Spec) fillQ() {
 	}
 	if s.Dec != nil {
 		s.Dec.Q = fmt.Sprintf("%q", s.Dec.S)
+	}
+	if s.Hist != nil {
+		s.Hist.fillQ()
 	}
 }
 
@@ -452,6 +458,9 @@ func c06Gen_(r *RNG, tier string) []json.RawMessage {
 			add(c06Spec{Table: ts, Renders: genOn(), ZeroRows: z})
 		}
 	}
+
+	// (a8) histories over several tables and several long-lived wrappers
+	c06GenHist(r, tier, add)
 
 	// (b) every byte value in every context (cell, header, caption, id, class, generator value)
 	oneIn := func(s string) c06Spec {
@@ -912,6 +921,9 @@ func c06Run(spec json.RawMessage) CaseOut {
 	if s.Dec != nil {
 		return c06RunDec(s.Dec)
 	}
+	if s.Hist != nil {
+		return c06RunHist(s.Hist)
+	}
 	if len(s.Renders) == 0 {
 		s.Renders = []c06Render{{}}
 	}
@@ -1188,6 +1200,9 @@ func c06Shrink(spec json.RawMessage) []json.RawMessage {
 	if err := json.Unmarshal(spec, &s); err != nil || s.Dec != nil {
 		return nil
 	}
+	if s.Hist != nil {
+		return c06ShrinkHist(s.Hist)
+	}
 	var out []json.RawMessage
 	emit := func(c c06Spec) {
 		c.fillQ()
@@ -1348,8 +1363,9 @@ func init() {
 			"every shape with header in {none,0,1,2 cells} and up to 3 rows over {separator,0,1,2 cells}; every single byte value 0..255, every pair over 12 hostile ASCII bytes and every hostile atom, each in cell, header, caption, id, class and generator-value position; " +
 			"random tables to 5x5 with texts from a markup-hostile alphabet (< > \" ' & + = / space LF backtick, entity look-alikes, tag text, comment text, template syntax, invalid UTF-8), NUL in a separate stream judged against U+FFFD; " +
 			"each accepted output is also corrupted (dropped '>', injected tag, unescaped / truncated entity, added attribute, truncated document, stray text) and the Coq tokenizer must refuse every corruption; the Coq entity decoder is compared with html.UnescapeString / html.EscapeString / template.HTMLEscapeString; " +
+			"HISTORIES OF LONG-LIVED WRAPPERS (c06_hist.go; Model/HtmlWrap.v, Spec/HtmlWrapSpec.v): several tables and several *HTMLTable objects, events html.Wrap / html.New (table built through the wrapper) / by-value copy of a wrapper / the exported Table field pointed at another table (or at another wrapper around it) / Id, Class, Caption, TemplateName and the row-class generator WITH ITS CONTEXT set again (the generator's values come from the context it is registered with; a fresh closure per registration, or one shared function under different contexts) / tables built further or re-headed between renders, directly or through a wrapper pointing at them / Render and RenderTo / renders that fail part-way; EVERY successful render of a history is judged against the spec view of the table the wrapper points at at that moment and the settings it has at that moment, Coq reading the expectation off the history without any memory of earlier renders; " +
 			"a case is non-trivial when some supplied string contains a byte that needs escaping or invalid UTF-8; distinct = distinct (view, renders, outcomes)",
-		Exhaustive: "shapes (header x row-sequence up to length 3); all row sequences up to length 3 over {separator, row, twice-attached row} with a generator; all 256 single bytes, all 144 pairs over 12 hostile bytes and all atoms in six contexts",
+		Exhaustive: "shapes (header x row-sequence up to length 3); all row sequences up to length 3 over {separator, row, twice-attached row} with a generator; all 256 single bytes, all 144 pairs over 12 hostile bytes and all atoms in six contexts; every word up to length 3 (thorough: 4) with at least one render over the eight wrapper-life events {render, failing render, point at the other table, copy by value, switch wrapper, set fields/generator, build the table further, fresh wrapper} on two tables of different shapes, each followed by a render of every wrapper; the second use of a wrapper (pointed at / copied and pointed at another table after a render) for every shape of the second table with header in {none,0,1,2 cells} and up to 2 rows",
 		Gen:        c06Gen_,
 		Run:        c06Run,
 		Shrink:     c06Shrink,
